@@ -4,16 +4,17 @@
 From HV Require Import Prelude Tracts BpText C05_Model C05_Check.
 
 Section RoundTrip.
+Variable strict : bool.                 (* either reader: with or without the field-width check *)
 Variable parse_int parse_flt : str -> res Z.
 Variable fmt_int fmt_flt : Z -> str.
 Variable samples : option (list str).   (* the subset handed to read(samples); None = all *)
 
-Notation iter_step := (iter_step parse_int parse_flt).
-Notation iter_run := (iter_run parse_int parse_flt).
+Notation iter_step := (iter_step strict parse_int parse_flt).
+Notation iter_run := (iter_run strict parse_int parse_flt).
 Notation yield_cur := (yield_cur parse_int parse_flt).
 Notation conv_blk := (conv_blk parse_int parse_flt).
-Notation bp_iter := (bp_iter parse_int parse_flt).
-Notation bp_read := (bp_read parse_int parse_flt).
+Notation bp_iter := (bp_iter strict parse_int parse_flt).
+Notation bp_read := (bp_read strict parse_int parse_flt).
 Notation fmt_blk := (fmt_blk fmt_int fmt_flt).
 Notation bp_write := (bp_write fmt_int fmt_flt).
 
@@ -57,8 +58,11 @@ Lemma run_blocks (second : bool) bs : forall n r0 r1 out,
 Proof.
   induction bs as [|b bs IH]; intros n r0 r1 out Hwf; cbn [map C05_Model.iter_run].
   - rewrite !app_nil_r. destruct second; reflexivity.
-  - inversion Hwf as [|? ? Hb Hbs]; subst. destruct Hb as [Hh _].
-    unfold C05_Model.iter_step, C05_Model.fmt_blk. rewrite Hh. cbn [i_strand i_cur i_out].
+  - inversion Hwf as [|? ? Hb Hbs]; subst. destruct Hb as [Hh [H6 [H10 _]]].
+    unfold C05_Model.iter_step, C05_Model.fmt_blk. rewrite Hh.
+    replace (Nat.ltb 6 (length (c_pop b))) with false by (symmetry; apply Nat.ltb_ge; exact H6).
+    replace (Nat.ltb 10 (length (c_chrom b))) with false by (symmetry; apply Nat.ltb_ge; exact H10).
+    rewrite andb_false_r. cbn [i_strand i_cur i_out].
     destruct second; cbn [bind].
     + rewrite IH by exact Hbs. rewrite <- app_assoc. reflexivity.
     + rewrite IH by exact Hbs. rewrite <- app_assoc. reflexivity.
@@ -198,15 +202,29 @@ End RoundTrip.
 
 (* Writing breakpoints and reading them back yields identical samples, order, labels,
    chromosomes, positions and centimorgan values. *)
-Theorem bp_roundtrip parse_int parse_flt fmt_int fmt_flt d :
+Theorem bp_roundtrip strict parse_int parse_flt fmt_int fmt_flt d :
   Forall (wf_sample parse_int parse_flt fmt_int fmt_flt) d -> NoDup (map fst d) ->
-  bp_read parse_int parse_flt None (bp_write fmt_int fmt_flt d) = Ok d.
+  bp_read strict parse_int parse_flt None (bp_write fmt_int fmt_flt d) = Ok d.
 Proof.
-  intros Hd Hn. rewrite (bp_roundtrip_subset parse_int parse_flt fmt_int fmt_flt None d Hd Hn).
+  intros Hd Hn. rewrite (bp_roundtrip_subset strict parse_int parse_flt fmt_int fmt_flt None d Hd Hn).
   f_equal. unfold keep. cbn [selected]. induction d as [|a r IH]; cbn [filter]; [reflexivity|].
   f_equal. apply IH.
   - inversion Hd; assumption.
   - inversion Hn; assumption.
+Qed.
+
+(* the reader with the field-width check refuses a block line whose label has more than 6 or
+   whose chromosome name has more than 10 characters, wherever it stands in the file (the part
+   before it being readable) - it never stores a truncated name *)
+Theorem strict_refuses_long_fields parse_int parse_flt samples ls1 t0 t1 t2 t3 ls2 st :
+  first_char_is c_hash t0 = false -> (6 < length t0 \/ 10 < length t1)%nat ->
+  iter_run true parse_int parse_flt samples ls1 (mkist None SUnbound []) = Ok st ->
+  bp_read true parse_int parse_flt samples (ls1 ++ [t0; t1; t2; t3] :: ls2) = Err E_Value.
+Proof.
+  intros Hh Hlen Hrun. unfold bp_read, bp_iter. rewrite iter_run_app, Hrun. cbn [bind iter_run].
+  unfold iter_step at 1. rewrite Hh.
+  replace (Nat.ltb 6 (length t0) || Nat.ltb 10 (length t1)) with true; [reflexivity|].
+  symmetry. apply orb_true_iff. destruct Hlen as [H|H]; [left|right]; apply Nat.ltb_lt; exact H.
 Qed.
 
 (* the hypotheses are satisfiable: a toy codec (a number is written as the one-character
@@ -218,7 +236,7 @@ Example bp_roundtrip_example :
   let d : ctable := [([97; 95; 98], ([mkcb [89] [49] 10 7; mkcb [67] [49] 20 8], [mkcb [67] [49] 20 8]));
                      ([], ([], [mkcb [] [] 0 0]))] in
   Forall (wf_sample toy_parse toy_parse toy_fmt toy_fmt) d /\ NoDup (map fst d) /\
-  bp_read toy_parse toy_parse None (bp_write toy_fmt toy_fmt d) = Ok d.
+  bp_read true toy_parse toy_parse None (bp_write toy_fmt toy_fmt d) = Ok d.
 Proof.
   cbv zeta. split; [|split].
   - repeat constructor; cbn; lia.
